@@ -18,6 +18,7 @@ import (
 	"strconv"
 	"strings"
 	"sync"
+	"sync/atomic"
 	"time"
 
 	getoptions "github.com/DavidGamba/go-getoptions"
@@ -209,6 +210,25 @@ func taskOf(s string) string {
 
 var hangAfter = 3 * time.Second
 
+// hangsSeen counts runs of this process that did not return.  When Run hangs systematically (a
+// broken scheduler) waiting three seconds for each of thousands of runs would take the check out of
+// its time budget, so after the first few the wait shrinks (it stays well above the grace period).
+var hangsSeen int64
+
+func hangLimit(grace time.Duration) time.Duration {
+	if atomic.LoadInt64(&hangsSeen) < 6 {
+		return hangAfter
+	}
+	d := 12 * grace
+	if d < 250*time.Millisecond {
+		d = 250 * time.Millisecond
+	}
+	if d > hangAfter {
+		d = hangAfter
+	}
+	return d
+}
+
 func runDag(def *DagDef, grace time.Duration) *DagObs {
 	obs := &DagObs{Def: def, Oracle: map[string][]OracleHit{}, Nontrivial: map[string]bool{}}
 	obs.Key = fmt.Sprintf("%x", []byte(jsonOf(def)))
@@ -241,7 +261,10 @@ func runDag(def *DagDef, grace time.Duration) *DagObs {
 			return t
 		}
 		var t *dag.Task
-		if a.HasFn {
+		if a.HasFn && a.Obj%2 == 1 {
+			// a Task may also be written as a struct literal (ID and Fn are exported, the zero lock works)
+			t = &dag.Task{ID: dag.ID(a.ID), Fn: c.fn(a.ID, def.Buffered)}
+		} else if a.HasFn {
 			t = dag.NewTask(a.ID, c.fn(a.ID, def.Buffered))
 		} else {
 			t = dag.NewTask(a.ID, nil)
@@ -299,8 +322,9 @@ loop:
 			if idleSince.IsZero() {
 				idleSince = time.Now()
 			}
-			if time.Since(idleSince) > hangAfter {
+			if time.Since(idleSince) > hangLimit(grace) {
 				obs.Hang = true
+				atomic.AddInt64(&hangsSeen, 1)
 				break loop
 			}
 			select {
